@@ -180,10 +180,24 @@ fn lift(statement: FsStatement, state: &mut ShrinkingState) -> Rc<axcut::syntax:
         });
     }
 
-    let label = fresh_identifier(
-        state.max_id,
-        &("lift_".to_string() + state.current_label + "_"),
-    );
+    let label_name = "lift_".to_string() + state.current_label + "_";
+    let mut label = fresh_identifier(state.max_id, &label_name);
+    // identifiers are printed as `name_id` (or just `name` if the `id` is zero), so the fresh label
+    // must not be printed like one of the top-level functions of the program
+    let printed = |identifier: &Identifier| {
+        if identifier.id == 0 {
+            identifier.name.clone()
+        } else {
+            format!("{}_{}", identifier.name, identifier.id)
+        }
+    };
+    while state
+        .used_labels
+        .iter()
+        .any(|used| printed(used) == printed(&label))
+    {
+        label = fresh_identifier(state.max_id, &label_name);
+    }
     let context = shrink_context(context.into(), state.codata);
     // we substitute the fresh variables for the free ones in the body
     let body = statement.subst_sim(&subst).shrink(state);
